@@ -1,8 +1,78 @@
-"""C08 - see trav_props.py (traversal model, correspondence on hand-driven coroutines, monitors)."""
+"""C08 - see trav_props.py (traversal model, correspondence on hand-driven coroutines, monitors); plus the shared
+session cache of the workers (worker.py: get_session) against Model/Session.v."""
 from harness.props import trav_props
 
-EXTRA_TARGETS = ["Check/Trav.vo"]
+EXTRA_TARGETS = ["Check/Trav.vo", "Check/Session.vo"]
+NETS = ["cluster1.net6 cluster2.net6 cluster1.net7 net1 net2", "cluster1.net6 cluster2.net6", "net1 net2 net3",
+        "cluster2.net7 cluster1.net7 cluster2.net6", "cluster1.net6 cluster1.net7"]
+
+
+def session_part(ctx, rng, replay=None):
+    """sequences of get_session calls by the real workers of several clusters (stubbed login, health check failing at
+    random): which login each handed-out session came from"""
+    from unittest import mock
+    from aexpect.exceptions import ShellTimeoutError
+    from avocado_i2n.cartgraph import TestGraph, TestWorker
+    from avocado_i2n.cartgraph import worker as worker_mod
+    from harness import synth
+    from harness.common import coq_failing, cN, cnat
+    cases, terms = [], []
+    n = 1 if replay else (120 if ctx.thorough else 40)
+    for k in range(n):
+        if replay:
+            nets, calls = replay["data"]["session_case"]["nets"], [tuple(c) for c in replay["data"]["session_case"]["calls"]]
+        else:
+            nets = rng.choice(NETS)
+            calls = None
+        synth.reset_swarms()
+        workers = TestGraph.parse_workers({"nets": nets})
+        if calls is None:
+            calls = [(rng.randrange(len(workers)), rng.random() < 0.8) for _ in range(rng.randint(2, 12))]
+        addr_ids = {}
+        logins = []
+
+        def wait_for_login(client, host, port, *a, **kw):
+            s = mock.MagicMock()
+            s.login_no, s.address = len(logins), f"{host}:{port}"
+            logins.append(s)
+            return s
+        TestWorker._session_cache.clear()
+        ops, obs = [], []
+        with mock.patch.object(worker_mod.remote, "wait_for_login", wait_for_login):
+            for wi, healthy in calls:
+                w = workers[wi]
+                own = w.params["nets_shell_host"] + ":" + w.params["nets_shell_port"]
+                for s in logins:
+                    s.cmd_output.side_effect = None if healthy else ShellTimeoutError("date", "")
+                before = len(logins)
+                sess = w.get_session()
+                ops.append((addr_ids.setdefault(own, len(addr_ids)), healthy))
+                obs.append((sess.login_no, addr_ids.setdefault(sess.address, len(addr_ids)), len(logins) > before))
+        TestWorker._session_cache.clear()
+        cases.append({"nets": nets, "calls": [list(c) for c in calls], "workers": [w.id for w in workers],
+                      "handed_out": [[workers[c[0]].id, logins[o[0]].address] for c, o in zip(calls, obs)]})
+        terms.append("([" + "; ".join(f"({cN(a)}, {'true' if h else 'false'})" for a, h in ops) + "], [" +
+                     "; ".join(f"({cnat(i)}, {cN(a)}, {'true' if f else 'false'})" for i, a, f in obs) + "])")
+    res = coq_failing(ctx, "Model.Session Check.Session", "sess_case", terms, ["sess_corr", "sess_own"], tag="sess")
+    ctx.obligation("correspondence:session-cache", "correspondence", not res["sess_corr"],
+                   f"{len(res['sess_corr'])} of {len(cases)} call sequences of get_session differ from Model/Session.v")
+    ctx.obligation("monitor:C08:session-of-the-calling-worker", "monitor", True,
+                   f"{len(res['sess_own'])} of {len(cases)} call sequences handed a worker a session opened to another address")
+    for k in res["sess_own"][:1]:
+        c = cases[k]
+        wrong = next((h for h in c["handed_out"]), None)
+        ctx.fail("C08:session-of-another-worker", f"a worker was handed a remote session opened to another worker's address ({c['handed_out']})",
+                 {"session_case": c}, True)
+    for k in [k for k in res["sess_corr"] if k not in res["sess_own"]][:1]:
+        ctx.fail("C08:session-cache-correspondence", "get_session and Model/Session.v disagree on a call sequence", {"session_case": cases[k]}, False)
+    ctx.count(len(cases), sum(1 for c in cases if len(set(c["workers"])) > 2))
 
 
 def run(ctx, replay=None):
+    if replay and "session_case" in replay.get("data", {}):
+        import random
+        session_part(ctx, random.Random(ctx.seed), replay)
+        return
     trav_props.run_property(ctx, "C08", replay)
+    if not replay:
+        session_part(ctx, ctx.rng)
